@@ -41,19 +41,24 @@ Skip == UNCHANGED vars /\ UNCHANGED cancelled
 \* the sender that is busy with the batch carrying exactly these messages
 SenderOf(ms) == { p \in DOMAIN pw : pw[p].sender = "busy" /\ batch[pw[p].sending].msgs = ms }
 
+\* the application-level "return" event is recorded after the call has left the
+\* writer; the model took the returning step at the "leave" (or failed "enter") event
 Return(e) ==
   LET c == e.c IN
-  IF cpc[c] = "returned"
-    THEN calls[c].result = e.kind /\ (e.kind = "errors" => calls[c].errs = e.errs) /\ Skip
-    ELSE /\ UNCHANGED cancelled
-         /\ CASE e.kind = "ctx" -> c \in cancelled /\ ReturnCancelled(c)
-              [] e.kind \in {"nil", "errors"} /\ cpc[c] = "waiting" ->
-                   ReturnDone(c) /\ calls'[c].result = e.kind /\ calls'[c].errs = e.errs
-              [] e.kind \in {"nil", "toolarge"} /\ cpc[c] = "entered" ->
-                   ValidateReturn(c) /\ calls'[c].result = e.kind
-              [] e.kind \in {"topic", "meta"} -> BalanceFail(c, e.kind)
-              [] e.kind = "closed" /\ cpc[c] = "batching" -> BatchBegin(c) /\ cpc'[c] = "returned"
-              [] OTHER -> FALSE
+  /\ cpc[c] = "returned" /\ calls[c].result = e.kind
+  /\ e.kind = "errors" => calls[c].errs = e.errs
+  /\ Skip
+
+\* w.leave(): whichever returning step of the model is enabled for the call
+Leave(e) ==
+  LET c == e.c IN
+  IF cpc[c] = "returned" THEN Skip        \* asynchronous call: returned with BatchEnd
+  ELSE /\ UNCHANGED cancelled
+       /\ \/ c \in cancelled /\ ReturnCancelled(c)
+          \/ ReturnDone(c)
+          \/ ValidateReturn(c)
+          \/ \E k \in {"topic", "meta"} : BalanceFail(c, k)
+          \/ BatchBegin(c) /\ cpc'[c] = "returned"
 
 Step(e) ==
   CASE e.ev = "cfg" -> Reset(e)
@@ -95,6 +100,7 @@ Step(e) ==
           /\ e.pw \in DOMAIN pw /\ pw[e.pw].sending = e.b /\ batch[e.b].lastOk = e.ok
           /\ Done(e.pw) /\ UNCHANGED cancelled
     [] e.ev = "return" -> Return(e)
+    [] e.ev = "leave" -> Leave(e)
     [] e.ev = "cancel" -> cancelled' = cancelled \cup {e.c} /\ UNCHANGED vars
     [] e.ev = "close.begin" -> CloseBegin /\ UNCHANGED cancelled
     [] e.ev = "pw.close" ->
